@@ -1151,7 +1151,9 @@ orc_x86_get_output_insn (OrcCompiler *p)
 {
   OrcX86Insn *xinsn;
   if (p->n_output_insns >= p->n_output_insns_alloc) {
-    p->n_output_insns_alloc += 10;
+    /* grow geometrically: ten entries at a time makes long programs (tens of
+     * thousands of queued instructions) quadratic in realloc copies */
+    p->n_output_insns_alloc += 10 + p->n_output_insns_alloc / 2;
     p->output_insns = orc_realloc (p->output_insns,
         sizeof(OrcX86Insn) * p->n_output_insns_alloc);
   }
